@@ -86,7 +86,8 @@ pub const EDGE_FENS: &[&str] = &[
 /// FEN strings of the engine's own bench, read from the source file at run time (data only).
 pub fn bench_fens() -> Vec<String> {
     let mut out = Vec::new();
-    if let Ok(text) = std::fs::read_to_string("/repo/src/bench.rs") {
+    let repo = std::env::var("RCE_REPO").unwrap_or_else(|_| "/repo".to_string());
+    if let Ok(text) = std::fs::read_to_string(format!("{repo}/src/bench.rs")) {
         for piece in text.split('"').skip(1).step_by(2) {
             if piece.matches('/').count() == 7 && Pos::from_fen(piece).is_ok() {
                 out.push(piece.to_string());
